@@ -578,6 +578,13 @@ class Gen:
             self.tags.add("sub:not-in" if neg else "sub:in")
             e = self.colref(inner, INT) or ("lit", 1, INT)
             q.projs = [(e, None)]
+            if f.get("grouped_in_subquery", True) and e[0] == "col" and corr is None and self.chance(0.4):
+                # GROUP BY the selected key and, sometimes, a second key (the value then repeats across groups)
+                q.group = [e]
+                other = self.colref(inner, self.pick([INT, TEXT]))
+                if other is not None and other[2] != e[2] and self.chance(0.6):
+                    q.group.append(other)
+                self.tags.add("sub:in-grouped")
             return ("insub", self.int_expr(scope, 1), q, neg)
         if kind == "exists":
             neg = self.chance(0.3)
@@ -1066,9 +1073,12 @@ class Gen:
             branches.append(sq)
         q = branches[0]
         op = self.pick(ops)
+        # UNION / UNION ALL / EXCEPT [ALL] share one precedence level and associate to the left in both engines, so a
+        # chain may mix them; INTERSECT binds tighter in DuckDB but not in SQLite, so it is never mixed with the others
+        mixable = [o for o in ops if not o.startswith("INTERSECT")]
         for b in branches[1:]:
-            # one operator kind per chain: mixing INTERSECT with UNION/EXCEPT has engine-specific precedence
-            q.setops.append((op, b))
+            this_op = self.pick(mixable) if (op in mixable and f.get("mixed_setops", True) and self.chance(0.6)) else op
+            q.setops.append((this_op, b))
             q.out = [(n, ty, p | b.out[i][2]) for i, (n, ty, p) in enumerate(q.out)]
         self.tags.add("set:" + op.lower().replace(" ", "-"))
         if self.chance(0.7):
